@@ -83,6 +83,10 @@ def program(draw, emphasis='c01'):
     for _ in range(draw(st.integers(0, 4))):
         plans.append({'dur': draw(st.sampled_from(DURS)),
                       'outcome': draw(st.sampled_from(['ret'] * 4 + ['raise'] * fail_p + ['raise_sync'] * sync_p + ['raise_base'] * min(fail_p, 1)))})
+    for p_ in plans:
+        if p_['outcome'] != 'raise_sync' and draw(st.integers(0, 7)) == 0:
+            # re-entrant use: the computation itself asks the cached function for its own key, with a timeout
+            p_['nested'] = draw(st.sampled_from([0, U, 0.25]))
     nthreads = draw(st.integers(2, 4))
     two_keys = draw(st.integers(0, 5)) == 0
     threads = []
@@ -199,6 +203,8 @@ def valid(case):
         if not case['threads'] or not case['plans'] or not schedule_valid(case['sched']):
             return False
         for p in case['plans']:
+            if p.get('nested') is not None and not (0 <= p['nested'] <= 1):
+                return False
             if p['outcome'] not in ('ret', 'raise', 'raise_sync', 'raise_base') or not (-1 <= p['dur'] <= 2 or p['dur'] == LONG):
                 return False
         for t in case['threads']:
@@ -241,6 +247,10 @@ def simplify(case):
     if case['cache'] != 'default':
         yield dict(copy.deepcopy(case), cache='default')
     for pi, p in enumerate(case['plans']):
+        if p.get('nested') is not None:
+            n = copy.deepcopy(case)
+            del n['plans'][pi]['nested']
+            yield n
         if p['outcome'] in ('raise', 'raise_sync', 'raise_base'):
             n = copy.deepcopy(case)
             n['plans'][pi]['outcome'] = 'ret'
